@@ -9,6 +9,64 @@ namespace StubGen
 
 open List
 
+/-! ### the order of `sorted(paths)` -/
+
+theorem pl_partsLe_total : ∀ a b : PathParts, partsLe a b = true ∨ partsLe b a = true
+  | [], _ => Or.inl rfl
+  | _ :: _, [] => Or.inr rfl
+  | a :: as, b :: bs => by
+    simp only [partsLe]
+    rcases lt_trichotomy a b with h | h | h
+    · left; simp [h]
+    · subst h
+      simp only [lt_self_iff_false, if_false, if_true]
+      exact pl_partsLe_total as bs
+    · right; simp [h]
+
+theorem pl_partsLe_trans : ∀ a b c : PathParts, partsLe a b = true → partsLe b c = true → partsLe a c = true
+  | [], _, _, _, _ => rfl
+  | _ :: _, [], _, h, _ => by simp [partsLe] at h
+  | _ :: _, _ :: _, [], _, h => by simp [partsLe] at h
+  | a :: as, b :: bs, c :: cs, h1, h2 => by
+    simp only [partsLe] at h1 h2 ⊢
+    rcases lt_trichotomy a b with hab | hab | hab
+    · rcases lt_trichotomy b c with hbc | hbc | hbc
+      · simp [lt_trans hab hbc]
+      · subst hbc; simp [hab]
+      · simp [hbc, not_lt_of_gt hbc, ne_of_gt hbc] at h2
+    · subst hab
+      simp only [lt_self_iff_false, if_false, if_true] at h1
+      rcases lt_trichotomy a c with hbc | hbc | hbc
+      · simp [hbc]
+      · subst hbc
+        simp only [lt_self_iff_false, if_false, if_true] at h2 ⊢
+        exact pl_partsLe_trans as bs cs h1 h2
+      · simp [not_lt_of_gt hbc, ne_of_gt hbc] at h2
+    · simp [not_lt_of_gt hab, ne_of_gt hab] at h1
+
+theorem pl_partsLe_antisymm : ∀ a b : PathParts, partsLe a b = true → partsLe b a = true → a = b
+  | [], [], _, _ => rfl
+  | [], _ :: _, _, h => by simp [partsLe] at h
+  | _ :: _, [], h, _ => by simp [partsLe] at h
+  | a :: as, b :: bs, h1, h2 => by
+    simp only [partsLe] at h1 h2
+    rcases lt_trichotomy a b with hab | hab | hab
+    · simp [not_lt_of_gt hab, ne_of_gt hab] at h2
+    · subst hab
+      simp only [lt_self_iff_false, if_false, if_true] at h1 h2
+      rw [pl_partsLe_antisymm as bs h1 h2]
+    · simp [not_lt_of_gt hab, ne_of_gt hab] at h1
+
+/-- `sorted(files)` is a function of the SET of enumerated files: two enumeration orders give the same list -/
+theorem pl_sortPaths_perm {l l' : List PathParts} (h : l ~ l') : sortPaths l = sortPaths l' :=
+  p08_sortBy_perm_invariant partsLe pl_partsLe_total pl_partsLe_trans (fun a _ b _ => pl_partsLe_antisymm a b) h
+
+theorem pl_mem_sortPaths (f : PathParts) (l : List PathParts) : f ∈ sortPaths l ↔ f ∈ l := (sortBy_perm partsLe l).mem_iff
+
+theorem pl_adjustRoot_sortPaths (root : PathParts) (files : List PathParts) :
+    adjustRoot root (sortPaths files) = adjustRoot root files :=
+  p08_adjustRoot_perm root (sortBy_perm partsLe files)
+
 /-- the walked modules are the graph modules at the paths `selectAsts` selects, in the same order -/
 theorem pl_selectModules_paths (graph : List SrcModule) (d : Discovered) :
     (selectModules graph d).map (·.path) = selectAsts (graph.map (·.path)) d := by
@@ -25,11 +83,8 @@ theorem pl_selectModules_congr (graph : List SrcModule) {d d' : Discovered}
 /-- `get_api` on two enumeration orders of the same directory listing -/
 theorem pl_getApi_files_perm (i : ToolInput) {files' : List PathParts} (h : i.files ~ files') :
     getApi { i with files := files' } = getApi i := by
-  unfold getApi
-  rcases p08_discoverFrom_perm i.srcDir i.isTestRun h with ⟨e, h1, h2⟩ | ⟨r, d, d', h1, h2, h3, h4⟩
-  · simp only [h1, h2]
-  · simp only [h1, h2]
-    rw [pl_selectModules_congr i.graph (fun _ => h3.mem_iff) (fun _ => h4.mem_iff)]
+  unfold getApi discoverSorted
+  simp only [pl_sortPaths_perm h]
 
 theorem pl_runTool_files_perm (i : ToolInput) {files' : List PathParts} (h : i.files ~ files') :
     runTool { i with files := files' } = runTool i := by
@@ -58,13 +113,14 @@ theorem pl_discoverFrom_flag (root : PathParts) (files : List PathParts)
 
 theorem pl_runTool_flag (i : ToolInput) (h : ∀ f ∈ i.files, inExcludedDir f = false) (b : Bool) :
     runTool { i with isTestRun := b } = runTool i := by
-  unfold runTool getApi
-  simp only [pl_discoverFrom_flag i.srcDir i.files h b i.isTestRun]
+  unfold runTool getApi discoverSorted
+  have h' : ∀ f ∈ sortPaths i.files, inExcludedDir f = false := fun f hf => h f ((pl_mem_sortPaths f _).mp hf)
+  simp only [pl_discoverFrom_flag i.srcDir (sortPaths i.files) h' b i.isTestRun]
 
 /-- what a successful run went through -/
 theorem pl_runTool_ok {i : ToolInput} {o : ToolOutput} (h : runTool i = .ok o) :
     ∃ root d r ws text gen,
-      discoverFrom i.srcDir i.files i.isTestRun = .ok (root, d) ∧
+      discoverSorted i.srcDir i.files i.isTestRun = .ok (root, d) ∧
       analyze { opts := i.opts, aliases := getAliases (pathStem root) i.aliasFacts, infoBases := i.infoBases } i.docRoot
         (selectModules i.graph d) = .ok (r, ws) ∧
       apiJsonText (pathStem root) r = .ok text ∧
@@ -73,7 +129,7 @@ theorem pl_runTool_ok {i : ToolInput} {o : ToolOutput} (h : runTool i = .ok o) :
             aliases := getAliases (pathStem root) i.aliasFacts, api := r, warnings := ws,
             apiFileName := pathStem i.srcDir ++ "__api.json", apiFileText := text, gen := gen } := by
   unfold runTool getApi at h
-  cases hd : discoverFrom i.srcDir i.files i.isTestRun with
+  cases hd : discoverSorted i.srcDir i.files i.isTestRun with
   | error e => simp [hd] at h
   | ok rd =>
     obtain ⟨root, d⟩ := rd
@@ -97,15 +153,15 @@ theorem pl_runTool_ok {i : ToolInput} {o : ToolOutput} (h : runTool i = .ok o) :
 /-- where an error of the whole tool can come from: discovery ("No files found"), the walk, the JSON serialisation,
     the stub generator — never from the alias collection -/
 theorem pl_runTool_error {i : ToolInput} {e : PyErr} (h : runTool i = .error e) :
-    discoverFrom i.srcDir i.files i.isTestRun = .error e ∨
-    ∃ root d, discoverFrom i.srcDir i.files i.isTestRun = .ok (root, d) ∧
+    discoverSorted i.srcDir i.files i.isTestRun = .error e ∨
+    ∃ root d, discoverSorted i.srcDir i.files i.isTestRun = .ok (root, d) ∧
       (analyze { opts := i.opts, aliases := getAliases (pathStem root) i.aliasFacts, infoBases := i.infoBases } i.docRoot
           (selectModules i.graph d) = .error e ∨
        ∃ r ws, analyze { opts := i.opts, aliases := getAliases (pathStem root) i.aliasFacts, infoBases := i.infoBases } i.docRoot
           (selectModules i.graph d) = .ok (r, ws) ∧
          (apiJsonText (pathStem root) r = .error e ∨ runGenerator (r.toApi (pathStem root)) i.safe i.preexisting = .error e)) := by
   unfold runTool getApi at h
-  cases hd : discoverFrom i.srcDir i.files i.isTestRun with
+  cases hd : discoverSorted i.srcDir i.files i.isTestRun with
   | error e' =>
     simp only [hd, Except.error.injEq] at h
     exact Or.inl (by rw [h])
